@@ -56,6 +56,9 @@ type effWrite struct {
 	// kind "callparam": the function calls its func-typed parameter `param`;
 	// cpArgs are the origins of the arguments it passes (in its own terms)
 	cpArgs [][]Loc
+	// tops: the blocks of the summarised function whose instructions produce
+	// this write (directly or through a call)
+	tops []*ssa.BasicBlock
 	// method: non-empty when the function invokes this method on its
 	// interface-typed parameter `param` (instead of calling a func parameter)
 	method string
@@ -106,6 +109,7 @@ func (s *effSummary) sig() string {
 }
 
 type effectEngine struct {
+	liveMemo map[string]map[*ssa.BasicBlock]bool
 	P        *Prog
 	sums     map[*ssa.Function]*effSummary
 	rounds   int
@@ -171,7 +175,8 @@ func (E *effectEngine) compute(fn *ssa.Function) *effSummary {
 	P := E.P
 	e := P.terms
 	s := &effSummary{fn: fn}
-	seen := map[string]bool{}
+	seen := map[string]int{}
+	var curBlock *ssa.BasicBlock
 	add := func(l Loc, in ssa.Instruction, via []string, what string) {
 		if l.Kind == "fresh" {
 			return
@@ -185,13 +190,20 @@ func (E *effectEngine) compute(fn *ssa.Function) *effSummary {
 			w.what = what + " (" + l.Why + ")"
 		}
 		k := w.key()
-		if seen[k] {
+		if i, dup := seen[k]; dup {
+			if curBlock != nil {
+				s.writes[i].tops = append(s.writes[i].tops, curBlock)
+			}
 			return
 		}
-		seen[k] = true
+		seen[k] = len(s.writes)
+		if curBlock != nil {
+			w.tops = []*ssa.BasicBlock{curBlock}
+		}
 		s.writes = append(s.writes, w)
 	}
 	for _, b := range fn.Blocks {
+		curBlock = b
 		for _, in := range b.Instrs {
 			switch in := in.(type) {
 			case *ssa.Store:
@@ -503,7 +515,21 @@ func (E *effectEngine) callEffects(fn *ssa.Function, in ssa.CallInstruction, add
 		}
 	}
 	if P.inPkg(callee) {
+		live := E.liveBlocks(callee, in)
 		for _, w := range E.summary(callee).writes {
+			if live != nil && len(w.tops) > 0 {
+				// constant arguments (a flag, a struct literal of constants)
+				// make some blocks of the callee unreachable from this call
+				reach := false
+				for _, b := range w.tops {
+					if live[b] {
+						reach = true
+					}
+				}
+				if !reach {
+					continue
+				}
+			}
 			via := append([]string{shortFn(callee)}, w.via...)
 			switch w.kind {
 			case "param":
@@ -870,4 +896,75 @@ func invokeContract(c *ssa.CallCommon) *invContract {
 		return &ic
 	}
 	return nil
+}
+
+// liveBlocks: when call `in` passes constants (a boolean or integer constant,
+// or a struct literal with constant fields) to the loop-free in-package
+// function callee, the blocks of callee that lie on a path whose conditions
+// are not contradicted by those constants; nil when nothing can be said.
+func (E *effectEngine) liveBlocks(callee *ssa.Function, in ssa.CallInstruction) map[*ssa.BasicBlock]bool {
+	P := E.P
+	c := in.Common()
+	m := map[string]*Term{}
+	hasConst := false
+	for i, a := range c.Args {
+		t := P.terms.of(a)
+		if al, ok := a.(*ssa.Alloc); ok {
+			_ = al
+		}
+		closed := func(u *Term) bool {
+			switch u.Op {
+			case "const", "zero":
+				return true
+			case "update":
+				ok := false
+				u.walk(func(x *Term) {
+					if x.Op == "const" {
+						ok = true
+					}
+				})
+				return ok
+			}
+			return false
+		}
+		if closed(t) {
+			hasConst = true
+			m[itoa(int64(i))] = t
+		}
+	}
+	if !hasConst || len(callee.Blocks) < 2 || len(findLoops(callee)) > 0 {
+		return nil
+	}
+	key := callee.String()
+	for i := range c.Args {
+		if t, ok := m[itoa(int64(i))]; ok {
+			key += "|" + itoa(int64(i)) + "=" + t.String()
+		}
+	}
+	if E.liveMemo == nil {
+		E.liveMemo = map[string]map[*ssa.BasicBlock]bool{}
+	}
+	if lv, ok := E.liveMemo[key]; ok {
+		return lv
+	}
+	paths := P.allPaths(callee)
+	if len(paths) == 0 || len(paths) > 256 {
+		E.liveMemo[key] = nil
+		return nil
+	}
+	live := map[*ssa.BasicBlock]bool{}
+	for _, p := range paths {
+		q := *p
+		q.conds = nil
+		for _, cd := range p.conds {
+			q.conds = append(q.conds, normFact(cd.Pred.subst(m), cd.Val))
+		}
+		if q.feasible() {
+			for _, b := range p.blocks {
+				live[b] = true
+			}
+		}
+	}
+	E.liveMemo[key] = live
+	return live
 }
